@@ -156,6 +156,15 @@ class Host(threading.Thread):
                         self.loop.run_until_complete(self.rig.app.run_async(**self.rig.run_app_kwargs))
                     except EOFError:
                         pass
+                    finally:
+                        if self.rig.runstyle:
+                            # what asyncio.run() / Application.run() do when the coroutine has
+                            # returned: cancel whatever is still pending, then close the loop
+                            try:
+                                asyncio.runners._cancel_all_tasks(self.loop)
+                                self.loop.run_until_complete(self.loop.shutdown_asyncgens())
+                            finally:
+                                self.loop.close()
                 elif cmd[0] == "run_cbs":
                     for (cb, args, cctx) in cmd[1]:
                         self.loop.call_soon(cb, *args, context=cctx)
@@ -225,7 +234,7 @@ class FakeTty(io.StringIO):
 
 
 class Rig:
-    def __init__(self, ctx_default, gated, nwriters=0, sleep=0.0, cpr=False):
+    def __init__(self, ctx_default, gated, nwriters=0, sleep=0.0, cpr=False, runstyle=False):
         import prompt_toolkit.patch_stdout as ps
         from prompt_toolkit.application import Application, create_app_session
         from prompt_toolkit.application.current import get_app_session
@@ -253,6 +262,7 @@ class Rig:
         self._cms = []
         self.sio = io.StringIO()
         self.cpr = cpr
+        self.runstyle = runstyle      # the application is run like asyncio.run(): loop closed when it returns
         if cpr:
             # a terminal that answers cursor position requests (when the schedule says so)
             self.sio = FakeTty()
@@ -280,6 +290,7 @@ class Rig:
         self._wrap_renderer()
         self._wrap_cpr()
         logging.getLogger("asyncio").setLevel(logging.CRITICAL)
+        logging.getLogger("concurrent.futures").setLevel(logging.CRITICAL)
         warnings.filterwarnings("ignore", category=RuntimeWarning, message="coroutine .* was never awaited")
         self._old_hook = threading.excepthook
         threading.excepthook = self._hook
@@ -524,7 +535,8 @@ class Rig:
             pend = [(cb, args, cctx) for (lp, cb, args, cctx, txt) in self.loop_pending]
             self.lost.extend(txt for (lp, cb, args, cctx, txt) in self.loop_pending)
             self.loop_pending.clear()
-            self.host.send("close", pend)
+            if not self.host.loop.is_closed():
+                self.host.send("close", pend)
         elif k == 12:
             lp, cb, args, cctx, txt = self.loop_pending.popleft()
             if lp.is_running():
